@@ -229,6 +229,23 @@ func TestVerif_C16_Tamper(t *testing.T) {
 				nbits /= 2
 				m.Count("jwe_dir_cbc_key_sweeps_limited_to_mac_half", 1)
 			}
+			// related keys: the right key extended or truncated (a different key, of a different size)
+			related := map[string][]byte{
+				"key+01":      append(append([]byte(nil), key...), 0x01),
+				"key+16bytes": append(append([]byte(nil), key...), bytes.Repeat([]byte{0xa5}, 16)...),
+				"key+key":     append(append([]byte(nil), key...), key...),
+				"key-half":    append([]byte(nil), key[:len(key)/2]...),
+			}
+			for how, rk := range related {
+				dims := []dim{{"alg", o.alg}, {"enc", o.enc}, {"ser", o.ser}, {"how", "related-key"}}
+				col.seen("wrong-key-accepted:jwe", dims)
+				m.Case()
+				m.Count("jwe_wrong_key_trials", 1)
+				if _, _, st, _ := decryptJWE(m, o.s, rk); st == "" {
+					col.fail("wrong-key-accepted:jwe", "decrypt", dims, 0, map[string]interface{}{"part": "tamper", "op": "decrypt", "round": o.round, "key": o.keys[0], "related": how,
+						"serialized": clip(o.s), "expect": "reject"}, "a key related to the right one (%s, %d instead of %d bytes) still decrypts", how, len(rk), len(key))
+				}
+			}
 			for bit := 0; bit < nbits; bit++ {
 				dims := []dim{{"alg", o.alg}, {"enc", o.enc}, {"ser", o.ser}, {"how", "1bit-key"}}
 				col.seen("wrong-key-accepted:jwe", dims)
